@@ -210,9 +210,13 @@ def gen_plan(wl, fr, idx):
                 ops.append({'op': 'getattr', 'name': wl.choice(
                     ('period', 'is_burst', 'volt_amp', 'time_rdsym', 'sample_peak', 'sample_trough',
                      'amp_consistency', 'burst_fraction', 'no_such_column', 'band_amp'))})
-            elif r < 0.90:
+            elif r < 0.89:
                 ops.append({'op': 'load', 'sig': wl.randrange(nsig), 'settings': _gen_ctor(wl)})
-            elif r < 0.96 and not clean:
+            elif r < 0.93:
+                ops.append({'op': 'roundtrip', 'how': wl.choice(('pickle', 'deepcopy', 'copy'))})
+            elif r < 0.95:
+                ops.append({'op': 'other_object', 'ctor': _gen_ctor(wl), 'sig': wl.randrange(nsig)})
+            elif r < 0.98 and not clean:
                 ops.append({'op': 'fit', 'sig': wl.randrange(nsig),
                             'bad': wl.choice(('sig2d', 'fs0', 'flat', 'short'))})
             else:
@@ -537,6 +541,10 @@ def _run_single(plan, tape, res, hist, ctl, interrupts):
                 _op_load(plan, op, n, obj, model, res, hist)
             elif kind == 'getattr':
                 _op_getattr(op, n, obj, model, res, hist)
+            elif kind == 'roundtrip':
+                obj = _roundtrip(obj, op['how'], n, res, hist)
+            elif kind == 'other_object':
+                _op_other_object(plan, op, n, res, hist)
             # invariant: attribute access returns the table's columns - read every column after
             # every operation that (re)established the table (in a seeded subset of runs, so that
             # histories without intermediate reads are explored as well)
@@ -661,6 +669,44 @@ def _op_load(plan, op, n, obj, model, res, hist):
         res.violate('load-mismatch', 'attributes', 'op %d (load): object does not hold the loaded data: %s' % (n, dd))
         return
     model.table = ('known', pristine)
+
+
+def _roundtrip(obj, how, n, res, hist):
+    """The user pickles / copies the object and goes on with the copy: same settings, same table."""
+    import pickle
+    try:
+        if how == 'pickle':
+            new = pickle.loads(pickle.dumps(obj))
+        elif how == 'deepcopy':
+            new = copy.deepcopy(obj)
+        else:
+            new = copy.copy(obj)
+    except Exception as e:
+        hist.append(('roundtrip', 'raise'))
+        res.stats['roundtrip_failed.' + type(e).__name__] += 1
+        return obj              # nothing is demanded: the user keeps the original
+    hist.append(('roundtrip', how))
+    res.stats['probe.roundtrip_' + how] += 1
+    return new
+
+
+def _op_other_object(plan, op, n, res, hist):
+    """An independent second object is constructed and fitted in between: objects must not share state."""
+    from bycycle.objs import Bycycle
+    sig, fs, f_range = fit_args(plan, {'sig': op['sig']})
+    s = ref.object_settings_checked(op['ctor'], 'single')
+    expected = ref.ref_features(sig, fs, f_range, s)
+    other = construct(Bycycle, op['ctor'])
+    got = obj_outcome(other.fit, sig, fs, f_range)
+    hist.append(('other_object', got[0]))
+    if got[0] == 'interrupted':
+        return
+    if got[0] != expected[0] or (got[0] == 'ok' and diff(other.df_features, expected[1])):
+        res.violate('model-mismatch', 'second-object',
+                    'op %d: a second, independently constructed object fitted in between differs from '
+                    'compute_features with its own settings' % n)
+    else:
+        res.stats['probe.second_object_between_ops'] += 1
 
 
 def _read_all_columns(n, kind, obj, model, res):
